@@ -62,7 +62,7 @@ def read_structure(spec):
 
 
 def check_case(case) -> Outcome:
-    from formulaic import model_matrix
+    from ..libio import model_matrix
 
     out = Outcome()
     fr, fc, efr, output = case["frame"], case["formula"], case["efr"], case["output"]
